@@ -115,6 +115,17 @@ def outstationStep (o : OSt) (line : String) : OSt × List String :=
     let s := OState.init cfg ev
     let (s, outs) := finishStep (settle 8 (runPass passFuel (s, [])))
     (trackSeqs { env := env, st := some s } outs, canon outs ++ ["ok"])
+  | ["addmany", kind, start, count, cls] =>
+    match o.st, start.toNat?, count.toNat?, cls.toNat? with
+    | some s, some start, some count, some cls =>
+      let t := if kind == "bin" then PtType.binary else .analog
+      -- the same as `count` successive `add` inputs; only the last one's wake-up matters
+      let (s, okN, outs) := (List.range count).foldl (fun (p : OState × Nat × List OOut) i =>
+        let (s', o') := Outstation.step o.env p.1 (.add t (start + i) cls)
+        let added := o'.any fun x => match x with | .line l => l == "add 1" | _ => false
+        (s', p.2.1 + (if added then 1 else 0), p.2.2 ++ o'.filter (fun x => match x with | .line _ => false | _ => true))) (s, 0, [])
+      (trackSeqs { o with st := some s } outs, [s!"added {okN}"] ++ canon outs ++ ["ok"])
+    | _, _, _, _ => (o, ["bad-op", "ok"])
   | op :: args =>
     match o.st with
     | none => (o, ["bad-op", "ok"])
